@@ -48,11 +48,14 @@ def rand_para(rng, i):
         ppr.append(X("w:pStyle", {"w:val": "ListParagraph"}))        # numbering through the paragraph style: abstractNum 1, level 0
         exp = ("li", 1, True)
     elif k < 0.85:
-        mech = rng.choice(["direct1", "direct2", "link", "style_plus_own"])
+        mech = rng.choice(["direct1", "direct2", "link", "style_plus_own", "unmapped_style"])
         lvl = rng.choice([0, 0, 1, 1, 2, 3, 4])
-        numid = {"direct1": "1", "direct2": "2", "link": "3", "style_plus_own": "1"}[mech]
+        numid = {"direct1": "1", "direct2": "2", "link": "3", "style_plus_own": "1", "unmapped_style": "2"}[mech]
         if mech == "style_plus_own":
             ppr.append(X("w:pStyle", {"w:val": "ListParagraph"}))    # the paragraph's own numPr takes precedence
+        elif mech == "unmapped_style":
+            # a list item that also carries a style no mapping knows — the same style plain paragraphs of the document carry
+            ppr.append(X("w:pStyle", {"w:val": rng.choice(["Normal", "Mystery", "Undefined"])}))
         table = ORDERED["1"] if numid == "1" else ORDERED["2"]
         ppr.append(X("w:numPr", {}, [X("w:ilvl", {"w:val": str(lvl)}), X("w:numId", {"w:val": numid})]))
         exp = ("li", lvl + 1, table[lvl])
